@@ -53,7 +53,11 @@ SCHEMA_URL = "file:///sim/schema/s.xml"
 # load of the scenario (hundreds of loads, nearly all of them failing)
 # 'namedfile+url': a file object that has a .name of its own AND an explicit
 # url -- the explicit url is the resource's URL
-MODES = ["url", "loader", "file+url", "file-nourl", "namedfile+url"]
+# 'override': loadConfig with one valid command-line override that addresses
+# a key of the text (the extended matchers of ZConfig.cmdline then read the
+# file); positions of faults in the FILE are what they are without overrides
+MODES = ["url", "loader", "file+url", "file-nourl", "namedfile+url",
+         "override"]
 
 
 class NamedStringIO(io.StringIO):
@@ -78,6 +82,13 @@ def generate(rng, tier, index):
                 ln["t"] = "%include " + ln["target"]
             new.append(ln)
         uni["res"][top] = new
+    override = None
+    if mode == "override":
+        pool = _override_pool(rng, uni)
+        if pool:
+            override = rng.choice(pool)
+        else:
+            mode = "url"
     kinds = None
     if rng.random() < 0.3:
         kinds = sorted(rng.sample(TF.ALL_KINDS, rng.randint(3, 8)))
@@ -85,7 +96,7 @@ def generate(rng, tier, index):
     # on the last line
     eol = {u: TF.eol_choice(rng) for u in sorted(uni["res"])}
     return {"prop": ID, "schema_xml": xml, "ir": ir, "uni": uni, "mode": mode,
-            "kinds": kinds, "eol": eol,
+            "kinds": kinds, "eol": eol, "override": override,
             # 'loader' mode: does the accepted baseline text go through the
             # shared ConfigLoader first, or is the first thing that loader
             # ever reads already a rejected text (every later injection then
@@ -93,12 +104,39 @@ def generate(rng, tier, index):
             "loader_baseline": rng.random() < 0.5}
 
 
-def _load(schema, world, res, top, mode, eol=None, loader=None):
+def _override_pool(rng, uni):
+    """Valid specifiers for keys the text itself sets (path components by
+    section name or by section type)."""
+    entries, sections, _before = layout.walk(uni)
+    out = []
+    for e in entries:
+        ln = e["line"]
+        if ln["role"] != "key" or ln.get("wild"):
+            continue
+        path = []
+        sid = e["sect"]
+        while sid >= 0:
+            s_ = sections[sid]
+            path.append(s_["name"] if (s_["name"] and rng.random() < 0.6)
+                        else s_["type"])
+            sid = s_["parent"]
+        path.reverse()
+        good = rng.choice(G.DATATYPES[ln["dt"]][0])
+        if "$" in good or "/" in "".join(path) or "=" in ln["key"]:
+            continue
+        out.append("/".join(path + [ln["key"]]) + "=" + good)
+    return out
+
+
+def _load(schema, world, res, top, mode, eol=None, loader=None,
+          override=None):
     eol = eol or {}
     world.store = {u: TF.join(ls, *eol.get(u, ("\n", True)))
                    for u, ls in res.items()}
     if mode == "loader":
         return loader.loadURL(top)
+    if mode == "override":
+        return ZConfig.loadConfig(schema, top, [override])
     if mode == "url":
         return ZConfig.loadConfig(schema, top)
     text = world.store[top]
@@ -167,7 +205,8 @@ def execute(plan):
         if mode == "loader" and not plan.get("loader_baseline", True):
             bloader = ZConfig.loader.ConfigLoader(schema)
         bo = ops.config_outcome(
-            lambda: _load(schema, w, base_res, top, mode, eol, bloader))
+            lambda: _load(schema, w, base_res, top, mode, eol, bloader,
+                          plan.get("override")))
         out["evaluations"] += 1
         if not bo["ok"]:
             out["waste"] += 1
@@ -183,7 +222,8 @@ def execute(plan):
                     res0 = TF.apply(base_res, b)
                     w.begin_op("inject-before")
                     ops.config_outcome(lambda: _load(
-                        schema, w, res0, top, mode, eol, loader))
+                        schema, w, res0, top, mode, eol, loader,
+                        plan.get("override")))
                     out["evaluations"] += 1
         else:
             injs = TF.enumerate_injections(ir, uni, plan.get("kinds"))
@@ -195,7 +235,8 @@ def execute(plan):
             res = TF.apply(base_res, inj)
             w.begin_op("inject")
             o = ops.config_outcome(
-                lambda: _load(schema, w, res, top, mode, eol, loader))
+                lambda: _load(schema, w, res, top, mode, eol, loader,
+                              plan.get("override")))
             out["evaluations"] += 1
             if o["ok"]:
                 out["waste"] += 1
